@@ -1532,7 +1532,6 @@ func rulePXIsNull(c *Ctx) []Obligation {
 		pkgAtom := `eq("` + c.tokenTypeConst("packageToken") + `",recv.typ)`
 		nullAtom := `eq("` + c.tokenTypeConst("nullToken") + `",recv.typ)`
 		path := "assert<string>(recv.content)"
-		hint := "p0." + c.ff("hints") + "[" + path + "]"
 		for _, p := range paths {
 			if p.End != "return" {
 				continue // a failed assertion: T-TOKCONTENT
@@ -1561,11 +1560,15 @@ func rulePXIsNull(c *Ctx) []Obligation {
 					}
 				}
 				if pk[0] {
-					dotT, dk := c.dotFact(F, hint)
-					if hf := fact3(F, "has(p0."+c.ff("hints")+","+path+")"); hf[1] && !hf[0] {
-						dotT, dk = false, true
-					}
+					// registered paths are decided by their entry, any other by the hint (P-DOT-STABLE
+					// judges that the hint is only used for unregistered paths)
+					dotT, dk, hit, _, _ := c.dotDecision(F, "p0", path)
 					loc := fact3(F, eqAtom("p0."+c.ff("path"), path))
+					if hit && !loc[1] {
+						// an entry with a usable name is made by the registration function only, and never
+						// for the File's own path (P-REGISTER, W-IMPORTS-WRITERS)
+						loc = [2]bool{false, true}
+					}
 					var want, known bool
 					switch {
 					case (dk && dotT) || (loc[1] && loc[0]):
@@ -3301,6 +3304,10 @@ func rulePXRegister(c *Ctx) []Obligation {
 		}
 		t.note("anything but the \"C\" case is registered knowing that the path is not \"C\"", isC[1] && !isC[0], "path %s reaches the general store without having compared the path with \"C\" (the pseudo-package could be aliased, prefixed or numbered)", traceOf(p))
 		t.note("the entry is stored under the path being registered", key.String() == "p0", "path %s stores under %s", traceOf(p), key)
+		// the list renderer registers every package token before its null test — also those of the
+		// File's own path; that no import results is decided here
+		locS := fact3(F, eqAtom("p0", "recv."+c.ff("path")))
+		t.note("nothing is registered for the File's own path", locS[1] && !locS[0], "path %s stores an entry without knowing that the path differs from the File's own (facts %s): a reference to the local package would import the package into itself", traceOf(p), F)
 		// checked = stored = returned
 		okChecked := lastValid != nil && F.Has(lastValid.Res.String(), true) && len(lastValid.Args) == 2 && lastValid.Args[1].String() == name.String()
 		lv := "<none>"
@@ -3517,11 +3524,8 @@ func rulePXLocalDot(c *Ctx) []Obligation {
 			}
 			for _, oc := range outs {
 				F := oc.F
-				dotT, dk := c.dotFact(F, hint)
-				_, _ = nameF, aliasF
-				if hf := fact3(F, "has(recv."+hints+",p0)"); hf[1] && !hf[0] {
-					dotT, dk = false, true
-				}
+				_, _, _ = nameF, aliasF, hint
+				dotT, dk, _, _, _ := c.dotDecision(F, "recv", "p0")
 				t.note("the dot-import test is exactly hints[path] = {\".\", alias}", dk && dotT == oc.Val, "path %s returns %v under %s", traceOf(p), oc.Val, F)
 			}
 		}
